@@ -42,6 +42,7 @@ def main():
         ctx.evidence_dir = "evidence-extra"
     try:
         if a.replay:
+            ctx.evidence_dir = os.path.join("out", "replay-evidence")     # a replay never rewrites the check's evidence
             with open(a.replay) as f:
                 rep = json.load(f)
             mod.replay(ctx, rep)
